@@ -32,6 +32,10 @@ def corpus():
               "connection a\nconnection default\nstatement ok\nselect 1\n", "query I retry 1 backoff 1h1s\nselect 1\n----\n1\n",
               "statement ok\nselect 1\r\r\n"]:
         cases.append({"text": t, "meta": {"src": "witness"}})
+    # known finding D19: the last non-blank record ends in an empty SQL / command line; and near misses that must keep working
+    for t in ["statement ok\n\n", "query I\nselect 1\n----\n1\n\nstatement ok\n\n\n\n", "system ok\n\n", "query error\n\n\n", "statement count 3\n\n",
+              "statement ok\n\n\nhalt\n", "statement error\n\n----\nmsg\n\n", "statement ok\n\n# c\n"]:
+        cases.append({"text": t, "meta": {"src": "witness D19", "cli": True}})
     return cases
 
 
@@ -151,6 +155,24 @@ def classify_known(case, io):
 KNOWN_D8 = "D8"
 
 
+def dangling_end(records):
+    """known finding D19: the last record other than blank lines is a statement / query / system record whose SQL or command is empty and
+    which has no `----` block after it: its written text ends with the empty SQL line, which the trailing-newline trimmer removes"""
+    rs = [r for r in records if r[0] != "newline"]
+    if not rs:
+        return False
+    r = rs[-1]
+    if r[0] == "statement":
+        e = r[5]
+        return r[4] == "" and not (e[0] == "error" and e[1][0] == "multi")
+    if r[0] == "query":
+        e = r[5]
+        return r[4] == "" and e[0] == "error" and e[1][0] != "multi"
+    if r[0] == "system":
+        return r[3] == "" and r[4] in (None, [])
+    return False
+
+
 def cli_runs(cases, outs, n):
     """real binary, --format twice on real files; bytes vs model prediction (library fmt + trimmer) and vs each other"""
     sel = [(c, o) for c, o in zip(cases, outs) if "panic" not in o and o.get("parse", ["err"])[0] == "ok" and o.get("fmt", ["x"])[0] == "ok"
@@ -182,6 +204,7 @@ def cli_runs(cases, outs, n):
         fmt_all()
         second = [open(p, "rb").read() for p in paths]
         leftovers = [f for f in os.listdir(d) if f.endswith(".temp")]
+        reparsed = vlib.run_impl("parse", [{"text": b.decode("utf-8", "replace")} for b in first])
         for p in sorted(set(hung))[:3]:
             i = paths.index(p)
             bad.append({"case": sel[i][0], "impl": "`sqllogictest --format` did not terminate within 20 s", "model": trims[i],
@@ -203,6 +226,19 @@ def cli_runs(cases, outs, n):
                 bad.append({"case": c, "impl": "panic in the trailing-newline trimmer", "model": want,
                             "spec": "contradicts L1 (C08_trim): `--format` crashes on this file", "broken": "corr_C05_cli", "known": "D8"})
                 continue
+            # L1 through the CLI: the file `--format` wrote parses again, to a script with the same meaning
+            rp = reparsed[i]
+            if "panic" in rp or rp.get("parse", ["err"])[0] != "ok":
+                known = dangling_end(vlib.norm(o["parse"][1]))
+                bad.append({"case": c, "impl": {"formatted": first[i].decode("utf-8", "replace")[:300], "parse": rp.get("parse", rp)}, "model": "parses",
+                            "spec": "contradicts L1 (C05_format_sound through --format): the formatted file no longer parses: %r" % (rp.get("parse", rp),),
+                            "broken": "corr_C05_cli", "known": "D19" if known else None})
+                continue
+            if semantic(vlib.norm(rp["parse"][1])) != semantic(vlib.norm(o["parse"][1])) and vlib.norm(o["parse"][1]) is not None:
+                if direct_check(c, [vlib.norm(o[k]) for k in ("parse", "fmt", "reparse", "fmt2") if k in o]) is None:
+                    bad.append({"case": c, "impl": semantic(vlib.norm(rp["parse"][1]))[:6], "model": semantic(vlib.norm(o["parse"][1]))[:6],
+                                "spec": "contradicts L1 (C05_format_sound through --format): the formatted file parses to a different script", "broken": "corr_C05_cli"})
+                    continue
             if second[i] != first[i] and direct_check(c, [vlib.norm(o[k]) for k in ("parse", "fmt", "reparse", "fmt2") if k in o]) is None:
                 bad.append({"case": c, "impl": second[i].decode("utf-8", "replace")[:300], "model": first[i].decode("utf-8", "replace")[:300],
                             "spec": "contradicts L1 (C05_format_idem): a second `--format` changes the file", "broken": "corr_C05_cli"})
